@@ -78,8 +78,23 @@ def gen_indices(ch, n):
     return idx, kind
 
 
+_MANY = {}
+
+
+def many_subsets_opts(opts):
+    """small templates with up to 24 subsets (selections from a message with more subsets than a few)"""
+    if opts.tier not in _MANY:
+        o = gmsg.GenOpts(opts.tier)
+        o.min_subsets, o.max_subsets = 9, 24
+        o.template = gtemplates.Opts(max_ids=6)
+        o.extra_widths = False
+        _MANY[opts.tier] = o
+    return _MANY[opts.tier]
+
+
 def gen_case(ch, opts):
-    case = gmsg.gen_case(ch, opts)
+    many = ch.bool(1, 5)
+    case = gmsg.gen_case(ch, many_subsets_opts(opts) if many else opts)
     n = case.nsub
     idx, kind = gen_indices(ch, n)
     container = ch.weighted([(4, 'list'), (2, 'tuple'), (2, 'set'), (1, 'frozenset')])
@@ -89,6 +104,7 @@ def gen_case(ch, opts):
     idx2 = gen_indices(ch, n)[0] if ch.bool() else None
     sc = SubCase(case, idx, container, bad, idx2)
     sc.kind = kind
+    sc.many = many
     return sc
 
 
@@ -174,6 +190,8 @@ def check_case(sc):
     sel = sorted(set(sc.indices))
     kind = getattr(sc, 'kind', 'replay')
     out.classes = ['indices_' + kind, 'container_' + sc.container, 'compressed' if case.compressed else 'uncompressed']
+    if n >= 9:
+        out.classes.append('nine_or_more_subsets')
     changes = column_status_changes(case, sel)
     if changes:
         out.classes.append('column_becomes_constant')
